@@ -132,7 +132,12 @@ class Vector2D(t.NamedTuple):
         possible, i.e. it can have values between :math:`-\pi` and
         :math:`+\pi`.
         """
-        angle = math.atan2(self[1], self[0]) - math.atan2(other[1], other[0])
+        # ``x or 0.0`` drops the sign of a negative zero: ``atan2`` tells
+        # -0.0 from 0.0, which made the angle depend on how a zero
+        # coordinate had been computed (and thus on the absolute position).
+        angle = math.atan2(self[1] or 0.0, self[0] or 0.0) - math.atan2(
+            other[1] or 0.0, other[0] or 0.0
+        )
         if angle > math.pi:  # pragma: no cover
             angle -= 2 * math.pi
         elif angle < -math.pi:  # pragma: no cover
